@@ -10,9 +10,9 @@ CLAIMS = {
     },
     "C09": {
         "engine": "V",
-        "technique": "Verus loop invariants and lemmas on the extracted real text of Chunk::optimize: structural + content postcondition for all instruction sequences",
-        "text": "Proof, unbounded: for every instruction sequence whose jump targets are in range, Chunk::optimize (real text, 60-variant Instruction enum) returns a sequence related to the input by an index map such that order is kept, only LoadAttr/WriteTop that no jump targets are absorbed, groups start with a LoadName other than the dump variable, un-merged instructions are verbatim with jump targets sent through the map (so every jump lands on the instruction it pointed to), and each fused LoadPath/WritePath carries exactly the name, attributes and spans of its group (WritePath iff the group ends in WriteTop). Index accesses and both unreachable!() are proved safe.",
-        "note": "Undecided: semantic equivalence of the fused VM arms (LoadPath/WritePath) with the unfused sequence (two-program equivalence inside interpret); the precondition 'jump targets <= len' is established by the compiler (read, not proved). Assumed std contracts: mem::take, mem::replace+Clone on a vector element (R6), Vec::extend (R11).",
+        "technique": "Verus loop invariants and lemmas on the extracted real text of Chunk::optimize (structural + content postcondition for all instruction sequences); Verus contracts on the fused LoadPath/WritePath arms of interpret plus lemmas that they equal the composition of the unfused arms' contracts",
+        "text": "Proof, unbounded: for every instruction sequence whose jump targets are in range, Chunk::optimize (real text, 60-variant Instruction enum) returns a sequence related to the input by an index map such that order is kept, only LoadAttr/WriteTop that no jump targets are absorbed, groups start with a LoadName other than the dump variable, un-merged instructions are verbatim with jump targets sent through the map (so every jump lands on the instruction it pointed to), and each fused LoadPath/WritePath carries exactly the name, attributes and spans of its group (WritePath iff the group ends in WriteTop). Index accesses and both unreachable!() are proved safe. Semantic half, at the level of arm contracts: the real LoadPath arm computes lp_walk and the real WritePath arm computes write_path_result (proved on the lifted arm bodies), and lemmas prove lp_walk == LoadName;LoadAttr* run one after the other and write_path_result == LoadPath;WriteTop (same success/failure, same value written).",
+        "note": "Undecided: the glue between arms inside interpret (the dispatch loop, ip arithmetic), error message/position equality, spans pushed with values; the precondition 'jump targets <= len' is established by the compiler (read, not proved); value_facts (undefined() is undefined, an undefined value has no attributes) is assumed. Assumed std contracts: mem::take, mem::replace+Clone on a vector element (R6), Vec::extend (R11).",
         "design_ref": "DESIGN.md section 4 C09, Appendix A.5",
     },
     "C14": {
